@@ -120,7 +120,8 @@ type c18Argv struct {
 func (c *c18Argv) Key() string { return fmt.Sprintf("%q", c.Prefix) }
 
 var c18Alphabet = []string{"-d", "-t", "-r", "-s", "--disasm", "--trace", "--result", "--stats", "-dt", "-ts", "-dts", "-rs",
-	"--bdump", "--bdump=o.bcb", "--bload", "--bload=o.bcb", "--", "-", "f.bcl", "g.txt", "-x", "--foo", "-h", "-d1", "--bdumpx", "calc.bcl"}
+	"--bdump", "--bdump=o.bcb", "--bload", "--bload=o.bcb", "--", "-", "f.bcl", "g.txt", "-x", "--foo", "-h", "-d1", "--bdumpx", "calc.bcl",
+	"--bdump=env=prod.bcb", "--bload=a=b"}
 
 var argvServer struct {
 	cmd *exec.Cmd
@@ -484,6 +485,18 @@ var subC18Misc = &fw.Sub{Name: "c18.misc", New: func() fw.Case { return &c18Misc
 				}
 				fw.Tally("process_runs", 2)
 			}
+			// a BFILE name containing '=': the file of exactly that name is written, and the positional form loads it
+			{
+				d := runCLI(dir, "", "--bdump=env=prod.bcb", "ok.bcl")
+				if _, err := os.Stat(filepath.Join(dir, "env=prod.bcb")); err != nil {
+					return fw.Failf("bcl --bdump=env=prod.bcb writes the file env=prod.bcb", "%v (status %d)", err, d.code)
+				}
+				l := runCLI(dir, "", "--bload", "env=prod.bcb")
+				if l.stdout != d.stdout || l.code != d.code {
+					return fw.Failf("--bload env=prod.bcb reproduces "+fw.Trunc(d.stdout, 200), "status %d %q %q", l.code, fw.Trunc(l.stdout, 200), fw.Trunc(l.stderr, 200))
+				}
+				fw.Tally("process_runs", 2)
+			}
 			long := strings.Repeat("print \"a long program\"\n", 30)
 			os.WriteFile(filepath.Join(dir, "long.bcl"), []byte(long), 0o644)
 			runCLI(dir, "", "--bdump=o.bcb", "long.bcl")
@@ -513,7 +526,7 @@ func init() {
 	fw.Register(&fw.Check{
 		ID:    "C18",
 		Level: "model_checking",
-		Rule: "(1) every argument vector of length <=L (quick 4, thorough 5) over a 26-symbol alphabet (short, long and clustered flags, --bdump/--bload with and without =BFILE, --, -, file names, unknown and malformed flags, -h) is fed to the real parseArgs (compiled from the working tree with a stdin/stdout server added by build overlay) and compared with a reference argument parser written from the usage text; " +
+		Rule: "(1) every argument vector of length <=L (quick 4, thorough 5) over a 28-symbol alphabet (short, long and clustered flags, --bdump/--bload with and without =BFILE and with a BFILE that itself contains '=', --, -, file names, unknown and malformed flags, -h) is fed to the real parseArgs (compiled from the working tree with a stdin/stdout server added by build overlay) and compared with a reference argument parser written from the usage text; " +
 			"(2) the real binary is executed for every subset of {d,t,r,s} x every permutation of the flags around the file argument, every clustering, the long spellings and `--`, x program classes {succeeds, parse error, runtime error, empty} x file given by name / as '-' / omitted: stdout must equal what the library prints with the same options, exit status 0/1/2, diagnostics on stderr; usage errors, missing file, directory, and --bdump followed by --bload (3 spellings x 5 flag sets).",
 		Subs:           []*fw.Sub{subC18Argv, subC18Run, subC18Misc},
 		BudgetQuick:    100,
@@ -551,7 +564,7 @@ func init() {
 			}
 			for _, u := range []string{"usage:-x", "usage:--foo", "usage:-d1 ok.bcl", "usage:ok.bcl parse.bcl", "usage:--bdump", "usage:--bdump -", "usage:--bdumpx ok.bcl",
 				"usage:--bload=ok.bcb ok.bcl", "usage:-dx ok.bcl", "usage:ok.bcl -d --nope", "help:-h", "help:-d -h", "help:ok.bcl -h -x", "help:-dh",
-				"io:nonexistent.bcl", "io:adir", "io:--bload nonexistent.bcb", "io:--bdump=adir/x/y.bcb ok.bcl", "io:--bload ok.bcl",
+				"io:nonexistent.bcl", "io:adir", "io:--bload nonexistent.bcb", "io:--bdump=adir/x/y.bcb ok.bcl", "io:--bload ok.bcl", "io:--bdump=/dev/full ok.bcl", "io:--bdump=/dev/full empty.bcl",
 				"bdump:ok", "bdump:runtime", "bdump:parse", "bdump:empty"} {
 				c.Do(subC18Misc, &c18Misc{Name: u})
 			}
